@@ -709,14 +709,109 @@ def _o8(ctx, result):
             raise AnalysisError(f"O8: no construction call found in {fq}")
 
 
+GLOBAL = f"{OPT}.global_options"
+
+
+def _o9_o10(ctx, result):
+    """O9: a library function outside numpoly/option.py that calls set_options itself restores, on every exit
+    it reaches, each option it changed from a snapshot taken before the change (the disciplined way is
+    ``with global_options(...)``).  O10: no generator suspends (yield) inside ``with global_options(...)``:
+    the block would stay open while the caller runs and its restore is no longer nested."""
+    sites = 0
+    for module, qual, func in ctx.repo.analysed_functions():
+        if module.name == OPT or module.is_pyx:
+            continue
+        text = ast.unparse(func)
+        if "global_options" in text:
+            for node in ast.walk(func):
+                if isinstance(node, (ast.With, ast.AsyncWith)) and any(
+                        isinstance(item.context_expr, ast.Call) and ctx.dotted(module, item.context_expr.func) == GLOBAL
+                        for item in node.items):
+                    sites += 1
+                    inner = [n for st in node.body for n in ast.walk(st) if isinstance(n, (ast.Yield, ast.YieldFrom))
+                             and _owner(n, func) is func]
+                    result.ob(f"O10 {module.name}.{qual}: no yield inside 'with global_options'", not inner,
+                              module.loc(node), "")
+                    if inner:
+                        result.add(Finding(
+                            "R-OPT", module, qual, inner[0],
+                            "O10: the generator yields inside 'with global_options(...)': the block stays open while the "
+                            "caller runs, so the caller sees the changed options, and the restore happens whenever the "
+                            "generator is resumed or dropped - it can overwrite options set in between or leak the ones "
+                            "that were current when the iteration started", construct="yield inside with global_options"))
+        if "set_options" not in text:
+            continue
+        for path in ctx.paths_auto(module, func):
+            snaps = {}  # local name -> provenance text of a full snapshot
+            changed = {}  # option key (or '*') -> step
+            bad = None
+            for step in path:
+                if step.kind == "stmt" and isinstance(step.node, ast.Assign) and not changed:
+                    value = step.expand(step.node.value)
+                    if _is_copy_of(ctx, module, value, TABLE):
+                        for target in step.node.targets:
+                            if isinstance(target, ast.Name):
+                                snaps[target.id] = U(value)
+                for call in _calls(ctx, module, step, SET):
+                    sites += 1
+                    for kw in call.keywords:
+                        if kw.arg is None:
+                            if isinstance(kw.value, ast.Name) and kw.value.id in snaps and not step.muts.get(kw.value.id):
+                                changed.clear()
+                            else:
+                                changed["*"] = step
+                            continue
+                        value = kw.value
+                        if isinstance(value, ast.Subscript) and isinstance(value.value, ast.Name) and value.value.id in snaps \
+                                and isinstance(value.slice, ast.Constant):
+                            if value.slice.value == kw.arg:
+                                changed.pop(kw.arg, None)
+                            else:
+                                bad = (step, call, f"option '{kw.arg}' is restored from the saved value of "
+                                                   f"'{value.slice.value}'")
+                        else:
+                            if not snaps:
+                                bad = bad or (step, call, f"option '{kw.arg}' is changed before a snapshot of the "
+                                                          f"options (get_options()) was taken")
+                            changed[kw.arg] = step
+            last = path[-1]
+            if bad is None and changed and last.kind in ("return", "end", "raise"):
+                key, step = next(iter(changed.items()))
+                bad = (step, step.node, f"this exit ({last.kind} at line {getattr(last.orig, 'lineno', '?')}) is reached with "
+                                        f"option {key!r} still changed: it is not restored from the snapshot")
+            if any(_calls(ctx, module, st, SET) for st in path):
+                result.ob(f"O9 {module.name}.{qual}: options changed by set_options are restored on this exit "
+                          f"[{' / '.join(describe_path(path))}]"[:220], bad is None, module.loc(last.orig), "")
+            if bad is not None:
+                step, node, why = bad
+                result.add(Finding(
+                    "R-OPT", module, qual, node,
+                    f"O9: {qual} changes the global options with set_options and {why}; callers (and an enclosing "
+                    f"'with global_options' block) silently continue under different options",
+                    derivation=describe_path(path), construct=f"set_options in {qual}"))
+    result.info["O9_O10_sites"] = sites
+
+
+def _owner(node, func):
+    cur = node
+    while cur is not None and cur is not func:
+        cur = getattr(cur, "_parent", None)
+        if isinstance(cur, (ast.FunctionDef, ast.AsyncFunctionDef, ast.Lambda)):
+            return cur
+    return func
+
+
 def run_table(ctx) -> RuleResult:
     result = RuleResult("R-OPT-TABLE", "O1-O5: snapshot before set, restore in finally from the "
-                        "snapshot, validate all then mutate, detached copies, only set_options writes")
+                        "snapshot, validate all then mutate, detached copies, only set_options writes; "
+                        "O9: library code that calls set_options restores what it changed on every exit; "
+                        "O10: no yield inside 'with global_options'")
     module = ctx.repo.module(OPT)
     _o1_o2(ctx, result, module)
     _o3(ctx, result, module)
     _o4(ctx, result, module)
     _o5(ctx, result)
+    _o9_o10(ctx, result)
     result.floor = 20
     return result
 
